@@ -35,7 +35,7 @@ RULE = ("case = deployment + k + call order + schedule; non-trivial = >=2 comput
         "acceptance and at least one agent whose capacity cannot take every replica offered (a rejection or a tight "
         "bound); distinct by sha1(case)")
 ASSUMPTIONS = ["symmetric route tables with one common default", "all agents in one process (thread mode)"]
-BUDGET = {"quick": {"workers": 6, "examples": 250, "seconds": 45},
+BUDGET = {"quick": {"workers": 8, "examples": 500, "seconds": 45},
           "thorough": {"workers": 16, "examples": 4000, "seconds": 900}}
 
 # mixed case: the paths table is a sorted list of (cost, path) and "__hosting__" sorts between upper and lower case
